@@ -40,6 +40,22 @@ def trace_ops(rng, tier):
         ops.append({"op": "load", "image": [251, t, 19] + [2] * 36 + [1], "ss": 16, "ps": ps})
         ops.append({"op": "edge", "n": 130})
         ops += post_halt(rng)
+    # ... and with CODE behind the limit (after a STOP on the last allowed address the continue key must not let it run), deterministic keys
+    for ps, t in [(39, 39), (38, 39), (40, 39), (39, 30), (41, 39), (39, 37)]:
+        for keys in (["continue"], ["continue", "continue"], ["key_int", "continue"], ["cpu_reset"], ["continue", "key_int"]):
+            ops.append({"op": "load", "image": [251, t, 19] + [2] * 36 + [1, 68, 240, 31, 255, 68, 2, 1, 32, 254], "ss": 16, "ps": ps})
+            ops.append({"op": "edge", "n": 60})
+            for k in keys:
+                ops.append({"op": k})
+                ops.append({"op": "edge", "n": 25})
+    # STOP (and the error opcode) as the SECOND byte of every two-byte form: the halt is recognised wherever the byte is latched as an opcode
+    for b in range(240, 256):
+        for b2 in (1, 0):
+            img = [b, 77, b2, 68, 68, 1] if ((b >> 2) & 3 >= 2 and b & 3 == 3) else [b, b2, 68, 68, 1, 2]
+            ops.append({"op": "load", "image": img, "ss": 16, "ps": 255})
+            ops.append({"op": "edge", "n": 30})
+            ops.append({"op": "continue"})
+            ops.append({"op": "edge", "n": 30})
     # limits carried across loads: a program with *PROGRAMSIZE / *STACKSIZE NOSET keeps the limits of the previous load (or of a new machine),
     # AUTO takes the image length; the jump targets straddle the old limit, the image length and the RAM end
     for first in (None, (200, 32), (20, 64), (0, 16), (45, 0), (-1, 48)):
